@@ -165,6 +165,7 @@ def tlc_generate(genmodule, envs, deps, tag, timeout=900):
 
 
 VFAIL_RE = re.compile(r'^<<"VFAIL", (\d+), (.*)>>\s*$')
+VFAIL_ML_RE = re.compile(r'<<\s*"VFAIL",\s*(\d+),\s*(\{.*?\})\s*>>', re.S)
 STATS_RE = re.compile(r'^(\d+) states generated, (\d+) distinct states found')
 
 
@@ -211,14 +212,17 @@ def tlc_validate(module, shard_files, timeout=1200, heap="3g", env_extra=None):
         total_gen += int(m.group(1))
         total_states += int(m.group(2))
         flines = None
-        for line in txt.splitlines():
-            mm = VFAIL_RE.match(line)
-            if mm:
-                if flines is None:
-                    flines = open(f).read().splitlines()
-                ln = int(mm.group(1))
-                reasons = sorted(set(re.findall(r'"([^"]*)"', mm.group(2))))
-                fails.append((f, ln, reasons, json.loads(flines[ln - 1])))
+        # TLC pretty-prints a long tuple over several lines: match across line breaks
+        for mm in VFAIL_ML_RE.finditer(txt):
+            if flines is None:
+                flines = open(f).read().splitlines()
+            ln = int(mm.group(1))
+            reasons = sorted(set(re.findall(r'"([^"]*)"', mm.group(2))))
+            fails.append((f, ln, reasons, json.loads(flines[ln - 1])))
+        nviol = len(re.findall(r"Error: Invariant EventOK is violated", txt))
+        nfound = sum(1 for x in fails if x[0] == f)
+        if nviol != nfound:
+            raise Broken("TLC reported %d rejected events in %s but %d VFAIL records were parsed" % (nviol, f, nfound))
     log("validated %d events with %s in %.1fs: %d rejected" % (nevents, module, time.time() - t0, len(fails)))
     return {"states": total_states, "transitions": total_gen, "events": nevents, "fails": fails}
 
